@@ -30,9 +30,9 @@ class K01b(Harness):
         for c in CASES:
             for n in ([1, 2] if tier == "quick" else [1, 2, 3]):
                 out.append({"case": c, "N": n, "exc": "none"})
-        for c in ("lower", "upper"):
-            for e in ("prefix", "suffix"):
-                out.append({"case": c, "N": 2, "exc": e})
+        for c in ("lower", "upper", "camelCase"):
+            for e in ("prefix", "suffix", "both"):
+                out.append({"case": c, "N": 2 if tier == "quick" else 3, "exc": e})
         return out
 
     def run(self, eng, p):
@@ -46,12 +46,19 @@ class K01b(Harness):
             r.prefix_exceptions = [eng.str("e", 1, alphabet="aA_")]
         elif p["exc"] == "suffix":
             r.suffix_exceptions = [eng.str("e", 1, alphabet="aA_")]
+        elif p["exc"] == "both":
+            r.prefix_exceptions = [eng.str("e", 1, alphabet="aA_'")]
+            r.suffix_exceptions = [eng.str("f", 1, alphabet="aA_'")]
         r.case_exceptions_lower = []
         r._analyze([oToi])
         for v in r.violations[::-1]:
             r._fix_violation(v)
         new = tok.get_value()
         clauses = [("same_length", len(new) == len(s)), ("same_text_modulo_case", Eq(core.lift(new).lower() if isinstance(new, (str, core.SymStr)) else new, core.lift(s).lower()))]
+        # a token that starts like a string or character literal is never touched by a case rule (bit string rules aside)
+        first = core._cps(s)[0]
+        quoted = Or(core._eqc(first, 34), core._eqc(first, 39))
+        clauses.append(("literal_untouched", Implies(quoted, Eq(new, s))))
         return clauses
 
     def describe(self, values, p):
